@@ -65,6 +65,30 @@ func runC18(c *Ctx) {
 			c.FaultConfigured("F-close")
 		}
 	}
+	// a valid accept with the connection lost right behind it, and no valid accept on the next
+	// connection: whatever the client still does with that accept belongs to the dead connection
+	closeBehindAccept := -1
+	for k := 0; k < len(plan)-1; k++ {
+		if plan[k] == "valid" && t.Bool(1, 4) {
+			closeBehindAccept = k
+			plan[k+1] = pickStr(t, "none", "none", "bad-sig")
+			delete(dropConn, k)
+			c.FaultConfigured("F-close")
+			break
+		}
+	}
+	cs.Svc.AfterAccept = func(sc *SvcConn, mode string) {
+		if sc.ID == closeBehindAccept && mode == "valid" {
+			if t.Bool(1, 2) {
+				simrt.Sleep(time.Duration(t.Choose(3)) * time.Millisecond)
+			}
+			c.FaultFired("F-close")
+			c.Probe("closed_right_behind_valid_accept")
+			simrt.Eventf("fault", "service closes %s right behind its accept", sc)
+			sc.C.Close()
+			sc.Dead = true
+		}
+	}
 	cs.Svc.AcceptMode = func(sc *SvcConn) string {
 		if sc.ID < len(plan) {
 			return plan[sc.ID]
@@ -99,7 +123,7 @@ func runC18(c *Ctx) {
 		sc.Send(&client.InSync{})
 	}
 	// a service that cannot (or will not) produce a valid accept may also send its data first
-	dataFirst := t.Bool(1, 3)
+	dataFirst := t.Bool(1, 3) || closeBehindAccept >= 0
 	cs.Svc.BeforeAccept = func(sc *SvcConn, mode string) {
 		if !dataFirst || mode == "valid" || mode == "reject" || sc.Dead {
 			return
